@@ -78,11 +78,17 @@ pub enum Which {
     C17,
     /// chain stage of C12: a `let` name in front of a branch does not change the result
     C12,
+    /// bounds stage of C07: the spawning macros accept every Send + 'static value
+    C07,
 }
 
 /// closing mode of the forced wrapper (C02): 0 explicit `<<<`, 1 implicit at the end of a step, 2 implicit at the end of the branch
 fn gen_prog(rng: &mut TestRng, i: usize, which: Which) -> ChainProg {
-    let mac = if which == Which::C19 { ["join", "try_join", "join_async", "try_join_async"][i % 4] } else { MACROS[i % 12] };
+    let mac = match which {
+        Which::C19 => ["join", "try_join", "join_async", "try_join_async"][i % 4],
+        Which::C07 => ["join_spawn", "try_join_spawn", "spawn", "try_spawn", "join_async_spawn", "try_join_async_spawn", "async_spawn", "try_async_spawn"][i % 8],
+        _ => MACROS[i % 12],
+    };
     let kind = macro_kind(mac);
     let real_ok = |c: Comb| matches!(c, Comb::Map | Comb::AndThen | Comb::Filter | Comb::Dot | Comb::Then | Comb::OrElse | Comb::MapErr | Comb::Collect | Comb::Chain | Comb::FilterMap | Comb::Enumerate | Comb::Flatten | Comb::Fold | Comb::TryFold | Comb::Zip | Comb::Unzip | Comb::Inspect);
     let forced_comb = match which {
@@ -98,13 +104,16 @@ fn gen_prog(rng: &mut TestRng, i: usize, which: Which) -> ChainProg {
     if which == Which::C19 {
         nb = rng.random_range(1..8usize); // wide joins too
     }
+    if which == Which::C07 {
+        nb = rng.random_range(2..5usize); // at least two branches: something is spawned
+    }
     let try_res = rb(rng, 0.5) || kind.is_async;
     let (force, close_mode) = match which {
         Which::C01 | Which::C10 => {
             let (sp, c) = SPELLINGS[i % 22];
             (Some((c, sp == ">.", false)), 0)
         }
-        Which::C19 | Which::C17 | Which::C12 => (None, 0),
+        Which::C19 | Which::C17 | Which::C12 | Which::C07 => (None, 0),
         Which::C11 => {
             // every operator that takes expression operands; fold / try_fold (two operands) twice as often
             let hoistable = [Comb::Map, Comb::AndThen, Comb::Filter, Comb::Inspect, Comb::Then, Comb::Chain, Comb::FindMap, Comb::FilterMap, Comb::Partition, Comb::Find, Comb::Zip, Comb::Or, Comb::OrElse, Comb::MapErr, Comb::Fold, Comb::TryFold, Comb::Fold, Comb::TryFold];
@@ -130,6 +139,11 @@ fn gen_prog(rng: &mut TestRng, i: usize, which: Which) -> ChainProg {
             },
             ck: if which == Which::C10 { 0.5 } else { 0.0 },
             ns: if which == Which::C19 { 0.6 } else { 0.0 },
+            sn: match which {
+                Which::C07 => 0.5,
+                Which::C01 | Which::C02 => 0.05,
+                _ => 0.0,
+            },
             nest: if which == Which::C17 { 0.45 } else { 0.0 },
             nest_depth: 0,
             nest_log: vec![],
@@ -341,7 +355,7 @@ fn gen_prog(rng: &mut TestRng, i: usize, which: Which) -> ChainProg {
                 tup_ty = Ty::Tup(Box::new(tup_ty), Box::new(t.clone()));
                 tup_text = format!("({}, a{})", tup_text, i);
             }
-            let mut g = CG { rng, fam: Family::Sync, next: 0, base: 90_000, caps: 0.15, wrappers: 0.1, shapes: true, allow_deferred: false, spawn_async: true, depth: 0, force: None, forced_done: false, ck: 0.0, ns: 0.0, nest: 0.3, nest_depth: 0, nest_log: vec![] };
+            let mut g = CG { rng, fam: Family::Sync, next: 0, base: 90_000, caps: 0.15, wrappers: 0.1, shapes: true, allow_deferred: false, spawn_async: true, depth: 0, force: None, forced_done: false, ck: 0.0, ns: 0.0, sn: 0.0, nest: 0.3, nest_depth: 0, nest_log: vec![] };
             let try_res = branches.first().map(|b| matches!(b.fin, Ty::Res(_))).unwrap_or(false);
             let (hkind, out_ty): (&str, Ty) = if !kind.is_try {
                 ("then", g.any_ty(1))
@@ -640,6 +654,7 @@ pub fn run(id: &str, tier: &str, seed: u64) -> i32 {
         "C19" => Which::C19,
         "C17" => Which::C17,
         "C12" => Which::C12,
+        "C07" => Which::C07,
         _ => Which::C01,
     };
     let (count, inputs) = match (which, tier) {
@@ -654,6 +669,7 @@ pub fn run(id: &str, tier: &str, seed: u64) -> i32 {
     ev.rule = match which {
         Which::C01 => "programs: typed chains (random walk over i64 / usize / bool / () / Option / Result<_, i64> / Vec / tuples / iterators, nesting <= 3), 1-3 independent chains per invocation, length 1-8 plus closing; program i is forced to contain operator spelling i mod 22 and uses macro name i mod 12 (async macros: half sync chains closed with `-> ready`, half chains over real futures and streams - FutureExt / TryFutureExt / StreamExt / TryStreamExt methods incl. `^^>` of futures of futures and streams of streams, `->` receiving the future itself, `~` where a step ends in a future; `??` meaning `.inspect`); operands fully typed, in varied shapes (call returning a closure, typed closure, closure with return type, parenthesised, macro call, block capture), `~` at random positions in the non-try sync macros; inputs: 8 boundary seeds + proptest-free hash-derived seeds building the initial values (None / Err / empty and non-empty vectors included). Oracle: differential against the documented method chain with the same operand text compiled in the same binary - Debug of the result, ordered callback-invocation trace (per branch when branches run on threads), multiset of all events; the macro side not compiling while the reference side does is a violation, the reverse is a generator bug (exit 2). Non-trivial = >= 2 operators and >= 1 callback invoked on that input",
         Which::C10 => "chain stage: typed chains as in C01 (all 22 operator spellings forced in turn, all 12 macro names) with block captures on 35 % of the operands and the clone- and drop-counting value type `Ck` in half of the scalar positions (fold / try_fold initial values, iterator items, Option / Result payloads); oracle against the documented chain compiled in the same binary: equal multiset of evaluation events (every operand expression and capture once, every callback as often as the std method calls it - per element for iterator callbacks), equal number of clones of counted values, no counted value alive after the result is dropped. Non-trivial = >= 2 callbacks invoked and >= 1 capture",
+        Which::C07 => "bounds stage: typed chains with 2-4 branches under the eight thread- and task-spawning macro names whose values include `Sn` (holds a Cell: Send but not Sync) in half of the scalar positions; the reference side passes every branch through `require_thread(move || ..)` / `require_task(..)` (FnOnce / Future + Send + 'static - exactly what the README documents for spawning); oracle: the macro side compiles whenever the reference does, and both give the same result and per-branch callback traces. Non-trivial = >= 2 operators and >= 1 callback invoked",
         Which::C12 => "chain stage: typed chains under all 12 macro names in which 85 % of the branches carry `let name =` / `let mut name =` on the macro side only, 60 % of them with an initial value that binds weaker than a method call (`a + b`, `-x`, `!b`, `x as T`, `a == 2`); metamorphic oracle: the named program equals the documented chain written without any name (result, callback traces, event multiset). Non-trivial = >= 2 operators and >= 1 callback invoked",
         Which::C17 => "nesting stage: typed chains under all 12 macro names in which 45 % of the callback operands are closures around a nested macro invocation (any of the 12 names, chosen by the type the operand must return; async ones driven by a no-op-waker poll loop), block captures that evaluate a nested invocation, initial values that are macro invocations, and (40 % of the programs) a then / map / and_then handler whose body is a nested invocation over the results; nested bodies are generated by the same chain generator, recursively to depth 3 (wrappers, captures, further nestings inside). Oracle (metamorphic + differential): the outer macro against the documented chain with the same operand text - so every nested invocation is evaluated once inside a macro expansion and once in plain Rust - equal results, callback traces and event multisets. Non-trivial = >= 2 operators and >= 1 callback invoked; classes count nestings by place, inner macro and depth",
         Which::C19 => "bounds stage: typed chains under join! / try_join! / join_async! / try_join_async! with 1-7 branches whose values include `Ns` (holds an Rc: neither Send nor Clone) and `Mv` (move-only) in 60 % of the scalar positions, and half of whose branches borrow - shared (`&Vec` iterated) or mutably (`iter_mut` with a callback that changes the element in place) - from locals of the calling function; oracle: the macro side compiles whenever the documented chain compiles (a new Clone / Send / 'static requirement is a compile error on the macro side only) and both give the same result and callback traces. Non-trivial = >= 2 operators and >= 1 callback invoked",
@@ -667,7 +683,7 @@ pub fn run(id: &str, tier: &str, seed: u64) -> i32 {
         "futures and streams in the async chains are immediately ready (ready(), stream::iter): pending points are the business of C03 / C09".into(),
     ];
     let known = evid::Known::load();
-    let mut runner = new_runner(seed, match which { Which::C01 => 0xc01, Which::C02 => 0xc02, Which::C10 => 0xc10, Which::C11 => 0xc11, Which::C19 => 0xc19, Which::C17 => 0xc17, Which::C12 => 0xc12 }, 1);
+    let mut runner = new_runner(seed, match which { Which::C01 => 0xc01, Which::C02 => 0xc02, Which::C10 => 0xc10, Which::C11 => 0xc11, Which::C19 => 0xc19, Which::C17 => 0xc17, Which::C12 => 0xc12, Which::C07 => 0xc07 }, 1);
     let mut progs: Vec<ChainProg> = Vec::new();
     let mut seen = HashSet::new();
     for i in 0..count {
